@@ -101,7 +101,7 @@ def strategy(tier):
         st.none(),
         st.fixed_dictionaries({'kind': st.sampled_from(
             ['send', 'disconnect_handler', 'callback', 'listen',
-             'callback_cancelled']),
+             'callback_cancelled', 'send_cancelled']),
             'at': st.integers(0, 12)}))
     return st.fixed_dictionaries({
         'aio': st.booleans(),
@@ -124,7 +124,7 @@ def _run(case, cl):
     sio, mgr = host.sio, host.mgr
     own = mgr.host_id
     flags = {'send': False, 'disconnect_handler': False, 'callback': False,
-             'callback_cancelled': False}
+             'callback_cancelled': False, 'send_cancelled': False}
     disc_log = []
     cb_log = []
 
@@ -171,6 +171,17 @@ def _run(case, cl):
     real_send = sio.eio.send_packet
     if aio:
         async def send_packet(sid, pkt):
+            if flags['send_cancelled'] and sid == B['t']:
+                # the send *task* of this recipient ends cancelled (its
+                # transport is being torn down); a send awaited inline by
+                # the listener is left alone - cancelling that would be
+                # cancelling the listener itself
+                import asyncio
+                cur = asyncio.current_task()
+                name = getattr(cur.get_coro(), '__name__', '') if cur \
+                    else ''
+                if name in ('_send_eio_packet', '_send_packet'):
+                    raise asyncio.CancelledError()
             if flags['send'] and sid == B['t']:
                 raise RuntimeError('injected transport fault')
             return await real_send(sid, pkt)
@@ -313,11 +324,13 @@ def _run(case, cl):
         cl.bus.append((0, raw))
         plan.append((idx, m, effect))
         for f in faults:
-            if f['at'] == i:
+            # transport faults last for a few messages, the others hit one
+            span = 4 if f['kind'].startswith('send') else 1
+            if f['at'] <= i < f['at'] + span:
                 if f['kind'] == 'listen':
                     listen_faults.append(idx)
                 else:
-                    fault_at[idx] = f['kind']
+                    fault_at.setdefault(idx, f['kind'])
         # sentinel
         n += 1
         cl.bus.append((0, pickle.dumps({
